@@ -21,6 +21,7 @@ def run(chk):
             # integer-width boundaries (pown), the result batch of a binary function with one shared operand (dense cross entropy)
             n = 3 if chk.tier == "quick" else 40
             progs = [f.pown_program(chk.rng) for _ in range(n)] + [f.sce_program(chk.rng, B) for B in (2, 3) for _ in range(n)]
+            progs += [f.conv_program(chk.rng) for _ in range(n)]      # anisotropic padding / stride / dilation, each also swapped
             found, dis = f.run_programs(chk, progs)
             f.report_found(chk, found, dis, prop="C02", keyprefix="funcs")
     _compose.finish(chk)
